@@ -9,8 +9,9 @@ Theorems about `sink`/`run` (Pcp/Sink.lean), the model of `pcp_server.c:_sink` o
 model Pcp/FS.lean (root, no symbolic links).  All of them quantify over **every** byte stream, every
 initial file system and every option setting.
 
-* `confined`             -- the receiver that validates received names (scp rule, `Opts.repaired`)
-                           hands only paths beneath the destination to `mkdir`/`open`/`chmod`/`utimes`.
+* `confined`             -- the receiver that validates received names (`Opts.rule`: the narrow rule
+                           "no `/`, not `..`" of the repair, or the scp rule) hands only paths beneath
+                           the destination to `mkdir`/`open`/`chmod`/`utimes`.
 * `escape_witness`, `overwrite_witness`
                          -- the same statement is FALSE for the unchanged receiver (DESIGN D13):
                            decided on `C0644 1 ../e` resp. `C0600 0 ../v`.
@@ -35,9 +36,10 @@ open PdshVerif.Pcp
 
 /-! ## confinement -/
 
-/-- **C12 for the receiver with name validation.**  Whatever the stream, every path handed to a
-successful modifying system call has the canonical destination as a component-wise prefix. -/
-theorem confined (o : Opts) (hrep : o.repaired = true) (fs : FS) (stream : Str) :
+/-- **C12 for the receiver with name validation** -- either rule: the narrow one that rejects names
+containing `/` and the name `..` (the repair), or the stricter scp rule.  Whatever the stream, every path
+handed to a successful modifying system call has the canonical destination as a component-wise prefix. -/
+theorem confined (o : Opts) (hrep : o.rule ≠ .none) (fs : FS) (stream : Str) :
     Spec.Confined (destPath o) (sink o fs stream).2.2 := by
   intro p hp
   simp only [sink, List.mem_reverse] at hp
@@ -58,9 +60,9 @@ def wfs : FS := fun p =>
   else if p = [[119], [118]] then some (.file 0o600 none [115, 101, 99, 114, 101, 116])
   else none
 
-def wopts (repaired : Bool) : Opts :=
-  { preserve := false, targetIsDir := false, umask := 0o22, cnt := 8192, repaired := repaired,
-    cwd := [[119]], dest := [100] }
+def wopts (rule : NameRule) : Opts :=
+  { preserve := false, targetIsDir := false, umask := 0o22, cnt := 8192, rule := rule, dirChmod := false,
+    fsize := none, cwd := [[119]], dest := [100] }
 
 /-- `C0644 1 ../e\nX\0` -/
 def wstream : Str := [67, 48, 54, 52, 52, 32, 49, 32, 46, 46, 47, 101, 10, 88, 0]
@@ -71,10 +73,10 @@ def wstream3 : Str := [67, 48, 54, 52, 52, 32, 49, 32, 101, 10, 88, 0]
 
 /-- D13: the unchanged receiver creates `/w/e` although its destination is `/w/d` -/
 theorem escape_witness :
-    destPath (wopts false) = [[119], [100]] ∧
-    (sink (wopts false) wfs wstream).2.2 = [[[119], [101]]] ∧
-    (sink (wopts false) wfs wstream).1 [[119], [101]] = some (.file 0o644 none [88]) ∧
-    ¬ Spec.Confined (destPath (wopts false)) (sink (wopts false) wfs wstream).2.2 := by
+    destPath (wopts .none) = [[119], [100]] ∧
+    (sink (wopts .none) wfs wstream).2.2 = [[[119], [101]]] ∧
+    (sink (wopts .none) wfs wstream).1 [[119], [101]] = some (.file 0o644 none [88]) ∧
+    ¬ Spec.Confined (destPath (wopts .none)) (sink (wopts .none) wfs wstream).2.2 := by
   refine ⟨by decide +kernel, by decide +kernel, by decide +kernel, ?_⟩
   intro h
   have := h [[119], [101]] (by decide +kernel)
@@ -85,10 +87,13 @@ theorem escape_witness :
 receiver answers the same stream with an error record and touches nothing -/
 theorem overwrite_witness :
     wfs [[119], [118]] = some (.file 0o600 none [115, 101, 99, 114, 101, 116]) ∧
-    (sink (wopts false) wfs wstream2).1 [[119], [118]] = some (.file 0o600 none []) ∧
-    (sink (wopts true) wfs wstream2).2.1 = [.ack, .err (.screwup .badName)] ∧
-    (sink (wopts true) wfs wstream2).2.2 = [] := by
-  refine ⟨by decide +kernel, by decide +kernel, by decide +kernel, by decide +kernel⟩
+    (sink (wopts .none) wfs wstream2).1 [[119], [118]] = some (.file 0o600 none []) ∧
+    (sink (wopts .slashDotdot) wfs wstream2).2.1 = [.ack, .err (.screwup .badName)] ∧
+    (sink (wopts .slashDotdot) wfs wstream2).2.2 = [] ∧
+    (sink (wopts .scp) wfs wstream2).2.1 = [.ack, .err (.screwup .badName)] ∧
+    (sink (wopts .scp) wfs wstream2).2.2 = [] := by
+  refine ⟨by decide +kernel, by decide +kernel, by decide +kernel, by decide +kernel, by decide +kernel,
+    by decide +kernel⟩
 
 /-- **The repair changes nothing else**: on a stream on which the validating receiver rejects no
 name, the receiver without validation produces the same file system, replies and paths. -/
@@ -100,15 +105,15 @@ theorem repair_conservative (o : Opts) (fs : FS) (stream : Str)
 
 /-- **C12 for the unchanged receiver, partial**: confined on every stream on which the scp rule
 would reject no name (a decidable hypothesis: run the validating model). -/
-theorem confined_partial (o : Opts) (hrep : o.repaired = true) (fs : FS) (stream : Str)
+theorem confined_partial (o : Opts) (hrep : o.rule ≠ .none) (fs : FS) (stream : Str)
     (h : badNameReply ∉ (sink o fs stream).2.1) :
     Spec.Confined (destPath o.unchanged) (sink o.unchanged fs stream).2.2 := by
   rw [repair_conservative o fs stream h]
   exact confined o hrep fs stream
 
 /-- the hypothesis of `confined_partial` is satisfiable by a stream that does create a file -/
-example : badNameReply ∉ (sink (wopts true) wfs wstream3).2.1 ∧
-    (sink (wopts true).unchanged wfs wstream3).2.2 = [[[119], [100], [101]]] := by
+example : badNameReply ∉ (sink (wopts .slashDotdot) wfs wstream3).2.1 ∧
+    (sink (wopts .slashDotdot).unchanged wfs wstream3).2.2 = [[[119], [100], [101]]] := by
   refine ⟨by decide +kernel, by decide +kernel⟩
 
 /-! ## buffers, termination -/
@@ -126,7 +131,17 @@ theorem sink_done (o : Opts) (hc : CntOk o) (fs : FS) (stream : Str) :
   have h := inv_run o hc fs stream
   exact ⟨h.2, h.1.coh.1 h.2⟩
 
-example : CntOk (wopts false) := ⟨by decide, by decide⟩
+example : CntOk (wopts .none) := ⟨by decide, by decide⟩
+
+/-- the narrow rule keeps what is harmless: the names `.` and the empty name denote the destination
+itself (`D0755 0 .` / `D0755 0 ` enter it, as `pdcp -r dir/ DEST` relies on), the scp rule rejects them -/
+example :
+    (sink (wopts .slashDotdot) wfs [68, 48, 55, 53, 53, 32, 48, 32, 46, 10, 67, 48, 54, 52, 52, 32, 49, 32, 101, 10, 88, 0]).2.2
+      = [[[119], [100], [101]]] ∧
+    (sink (wopts .slashDotdot) wfs [68, 48, 55, 53, 53, 32, 48, 32, 10, 67, 48, 54, 52, 52, 32, 49, 32, 101, 10, 88, 0]).2.2
+      = [[[119], [100], [101]]] ∧
+    (sink (wopts .scp) wfs [68, 48, 55, 53, 53, 32, 48, 32, 46, 10]).2.1 = [.ack, .err (.screwup .badName)] := by
+  refine ⟨by decide +kernel, by decide +kernel, by decide +kernel⟩
 
 /-! ## malformed and truncated input -/
 
